@@ -587,6 +587,186 @@ theorem temp_files_removed_any_setting (v : String) (hv : v ≠ "yes") (names : 
 example : keepSetting "false" = false ∧ keepSetting "0" = false ∧ keepSetting "Yes" = false ∧
     keepSetting "" = false ∧ keepSetting "yes" = true := by decide
 
+/-! ## fourth wave: the patch file of a FAILED execution
+
+"A non-zero exit is a failure; after a zero exit the output files are parsed and applied": a failed
+execution applies nothing. The code has one documented exception (`object_patch/patch.go`:
+"IgnoreHookError — allows applying patches for a Status subresource even if the hook fails") in the
+error branch of `handleRunHook`; with `Run` as it is (patch file read last) the branch never sees any
+bytes. Both facts are theorems: what `Run` hands over on an error, and what the branch may execute
+whatever it is handed. -/
+
+/-- The comparison in `GetPatchStatusOperationsOnHookError` (regenerated from the sources). -/
+theorem on_error_filter_table :
+    ShellOp.Facts.c12OnErrorCompares = ["subresource == /status"] ∧
+    ShellOp.Facts.c12OnErrorSubresource = "/status" := by decide
+
+theorem statusOpsOnError_acc (ops : List POp) : ∀ acc : List POp,
+    statusOpsOnError ops acc = acc ++ ops.filter Spec.statusIgnore := by
+  induction ops with
+  | nil => intro acc; simp [statusOpsOnError]
+  | cons o ops ih =>
+    intro acc
+    simp only [statusOpsOnError, ShellOp.Facts.c12OnErrorSubresource]
+    by_cases h : Spec.statusIgnore o = true
+    · have h' := h
+      simp only [Spec.statusIgnore] at h'
+      simp [h', ih, h]
+    · have h' := h
+      simp only [Spec.statusIgnore] at h'
+      simp [h', ih, h]
+
+/-- **The filter as documented**: the loop keeps exactly the patch operations on the status
+subresource that are marked `ignoreHookError`, in their order. -/
+theorem on_error_filter_spec (ops : List POp) :
+    statusOpsOnError ops [] = ops.filter Spec.statusIgnore := by
+  simp [statusOpsOnError_acc]
+
+/-- **`Run` hands no patch bytes over on an error** — for every exit code, every content of the
+output files and every pattern of file-creation failures: the patch file is read after every step
+that can fail. -/
+theorem failed_run_hands_no_patch (keep : Bool) (names : Names) (oks : List Bool) (out : Outputs)
+    (dir : List Name) (hf : (run keep names oks out dir).failed = true) :
+    (run keep names oks out dir).patch = .empty := by
+  unfold run at hf ⊢
+  split
+  · rfl
+  · rename_i dir1 created heq
+    simp only [heq] at hf
+    by_cases hs : runBody out = .none
+    · simp [hs, RunResult.failed] at hf
+    · simp [hs]
+
+/-- **C12.1 (a failed `Run` applies nothing)** Whatever the patch file of a failed execution holds —
+operations marked `ignoreHookError`, on the status subresource, both or neither — `handleRunHook`
+executes none of them. -/
+theorem failed_execution_executes_nothing (keep : Bool) (names : Names) (oks : List Bool) (out : Outputs)
+    (dir : List Name) (ops : List POp) (hf : (run keep names oks out dir).failed = true) :
+    handleOps (run keep names oks out dir) ops = [] := by
+  have hp := failed_run_hands_no_patch keep names oks out dir hf
+  simp [handleOps, hf, hp]
+
+/-- **The documented exception, whatever `Run` hands over**: on the error branch `handleRunHook`
+executes nothing but patch operations of the status subresource marked `ignoreHookError`. -/
+theorem on_error_only_status_ignore (r : RunResult) (ops : List POp) (hf : r.failed = true) :
+    ∀ o ∈ handleOps r ops, o.isPatch = true ∧ o.subresource = "/status" ∧ o.ignore = true := by
+  intro o ho
+  simp only [handleOps, hf, ↓reduceIte] at ho
+  cases hp : r.patch with
+  | ops b =>
+    simp only [hp, on_error_filter_spec, List.mem_filter] at ho
+    have h2 := ho.2
+    simp only [Spec.statusIgnore, Bool.and_eq_true, beq_iff_eq] at h2
+    exact ⟨h2.1.1, h2.1.2, h2.2⟩
+  | unreadable => simp [hp] at ho
+  | empty => simp [hp] at ho
+  | parseErr => simp [hp] at ho
+
+theorem admitsOps_none (out : Outputs) (ops : List POp) (h : out.exit ≠ 0 ∨ Spec.malformed out = true) :
+    Spec.admitsOps out ops (ops.map (fun _ => false)) = true := by
+  have hc : (decide (out.exit ≠ 0) || Spec.malformed out) = true := by
+    rcases h with h | h <;> simp [h]
+  simp only [Spec.admitsOps, hc, if_true, List.length_map, beq_self_eq_true, Bool.true_and]
+  rw [List.all_eq_true]
+  rintro ⟨o, a⟩ hmem
+  have h2 := (List.of_mem_zip hmem).2
+  simp only [List.mem_map] at h2
+  obtain ⟨_, _, rfl⟩ := h2
+  simp
+
+theorem admitsOps_all (out : Outputs) (ops : List POp) (h1 : out.exit = 0) (h2 : Spec.malformed out = false)
+    (h3 : Spec.fails out = false) :
+    Spec.admitsOps out ops (ops.map (fun _ => true)) = true := by
+  simp [Spec.admitsOps, h1, h2, h3, List.all_eq_true]
+
+/-- **C12.1 on the operations of the patch file (the contract as worded)**: for every exit code and
+every output, with `ops` the operations of the patch file (when it parses), what `handleRunHook`
+executes is admitted by `Spec.admitsOps`: nothing after a non-zero exit or a malformed output,
+everything when the execution does not fail. -/
+theorem ops_meet_contract (keep : Bool) (names : Names) (oks : List Bool) (out : Outputs)
+    (dir : List Name) (ops : List POp) (hok : ∀ b ∈ oks, b = true)
+    (hops : ops ≠ [] → ∃ b, out.patch = .ops b) :
+    Spec.admitsOps out ops
+      (ops.map (fun o => (handleOps (run keep names oks out dir) ops).contains o)) = true := by
+  by_cases hf : (run keep names oks out dir).failed = true
+  · have hm : out.exit ≠ 0 ∨ Spec.malformed out = true := by
+      have := ((run_outcome keep names oks out dir hok).1).mp hf
+      rcases this with h | h | h | h | h
+      · exact Or.inl h
+      all_goals (right; simp [Spec.malformed, h])
+    rw [failed_execution_executes_nothing keep names oks out dir ops hf]
+    have hmap : ops.map (fun o => ([] : List POp).contains o) = ops.map (fun _ => false) := by simp
+    rw [hmap]
+    exact admitsOps_none out ops hm
+  · have hf' : (run keep names oks out dir).failed = false := by
+      cases h : (run keep names oks out dir).failed <;> simp_all
+    have ho := handle_outcome keep names oks out dir hok
+    simp only at ho
+    have hpe := ho.2.1
+    by_cases hc : out.exit ≠ 0 ∨ Spec.malformed out = true
+    · have hpa : Spec.patchApplied out = false := by
+        simp only [Spec.patchApplied]
+        rcases hc with h | h <;> simp [h]
+      have hmap : ops.map (fun o => (handleOps (run keep names oks out dir) ops).contains o)
+          = ops.map (fun _ => false) := by
+        simp [handleOps, hf', hpe, hpa]
+      rw [hmap]
+      exact admitsOps_none out ops hc
+    · have h0 : out.exit = 0 := by
+        by_cases h : out.exit = 0
+        · exact h
+        · exact absurd (Or.inl h) hc
+      have hmf : Spec.malformed out = false := by
+        cases h : Spec.malformed out
+        · rfl
+        · exact absurd (Or.inr h) hc
+      by_cases hfl : Spec.fails out = true
+      · simp [Spec.admitsOps, h0, hmf, hfl]
+      · have hfl' : Spec.fails out = false := by
+          cases h : Spec.fails out <;> simp_all
+        cases ops with
+        | nil => simp [Spec.admitsOps]
+        | cons o os =>
+          obtain ⟨b, hb⟩ := hops (by simp)
+          have hb' : b = true := by
+            cases b with
+            | true => rfl
+            | false => exact absurd (by simp [Spec.fails, hb]) hfl
+          subst hb'
+          have hpa : Spec.patchApplied out = true := by
+            simp [Spec.patchApplied, h0, hmf, hb]
+          have hmap : (o :: os).map (fun x => (handleOps (run keep names oks out dir) (o :: os)).contains x)
+              = (o :: os).map (fun _ => true) := by
+            apply List.map_congr_left
+            intro x hx
+            simp only [handleOps, hf', Bool.false_eq_true, ↓reduceIte, hpe, hpa]
+            simpa using hx
+          rw [hmap]
+          exact admitsOps_all out (o :: os) h0 hmf hfl'
+
+/-- The De Morgan slip (`ok && (subresource == "/status" || ignoreHookError)`) is a different
+function: it keeps a patch of the object itself that is merely marked `ignoreHookError`, and an
+unmarked status patch; the code's loop keeps only the one with both. -/
+theorem on_error_or_variant_witness :
+    statusOpsOnErrorOr [⟨true, "", true⟩, ⟨true, "/status", false⟩, ⟨true, "/status", true⟩, ⟨false, "/status", true⟩] []
+      = [⟨true, "", true⟩, ⟨true, "/status", false⟩, ⟨true, "/status", true⟩] ∧
+    statusOpsOnError [⟨true, "", true⟩, ⟨true, "/status", false⟩, ⟨true, "/status", true⟩, ⟨false, "/status", true⟩] []
+      = [⟨true, "/status", true⟩] := by decide
+
+/-- Non-vacuity: a failed execution whose patch file holds all four combinations executes nothing
+(the code); if `Run` did hand the bytes over, exactly the doubly marked operation would run; a
+successful execution runs all of them. -/
+example :
+    handleOps (run false ⟨1, 2, 3, 4, 5⟩ [] ⟨3, .none, .none, .none, .ops true⟩ [])
+      [⟨true, "", false⟩, ⟨true, "", true⟩, ⟨true, "/status", false⟩, ⟨true, "/status", true⟩] = [] ∧
+    handleOps ⟨.exit, true, [], .none, .none, .none, .ops true⟩
+      [⟨true, "", false⟩, ⟨true, "", true⟩, ⟨true, "/status", false⟩, ⟨true, "/status", true⟩] = [⟨true, "/status", true⟩] ∧
+    handleOps (run false ⟨1, 2, 3, 4, 5⟩ [] ⟨0, .none, .none, .none, .ops true⟩ [])
+      [⟨true, "", false⟩, ⟨true, "/status", true⟩] = [⟨true, "", false⟩, ⟨true, "/status", true⟩] ∧
+    Spec.admitsOps ⟨3, .none, .none, .none, .ops true⟩ [⟨true, "", true⟩, ⟨true, "/status", true⟩] [true, false] = false ∧
+    Spec.admitsOps ⟨3, .none, .none, .none, .ops true⟩ [⟨true, "", true⟩, ⟨true, "/status", true⟩] [false, true] = true := by
+  decide
+
 /-! ## non-vacuity -/
 
 /-- Every failure stage and the success path occur. -/
